@@ -457,6 +457,12 @@ def cases(tier, seed):
             add("k2c.formula", base, "kraus_to_choi/pairs/rect-spaces/sym")
             add("k2c.apply", base, "kraus_to_choi+apply_channel/pairs/rect-spaces/sym")
         add("apply.action", dict(rect=rect, r=0, form="choi-arbitrary", entries="sym", seed=seed), "apply_channel/choi-arbitrary/rect-spaces/sym")
+    # maps between spaces of column vectors M_{a,1} -> M_{c,1}: the Choi matrix has a single column (F-04e); row spaces M_{1,b} for contrast
+    for rect in ([2, 1, 2, 1], [2, 1, 3, 1], [3, 1, 2, 1]):
+        for ent_ in ("sym", "complex"):
+            add("apply.action", dict(rect=rect, r=0, form="choi-arbitrary", entries=ent_, seed=seed), "apply_channel/choi-arbitrary/column-spaces/%s" % ent_)
+    for rect in ([1, 2, 1, 2], [1, 3, 1, 2]):
+        add("apply.action", dict(rect=rect, r=0, form="choi-arbitrary", entries="complex", seed=seed), "apply_channel/choi-arbitrary/row-spaces/complex")
     for din, dout in ((2, 2), (2, 3), (3, 2)):
         for kind in ("cp", "noncp"):
             for form in forms_for(kind, 3):
